@@ -208,7 +208,8 @@ def run_scenario(job):
                 unsol[0] += 1
                 ev.append({"e": "InOther", "id": f"u{unsol[0]}", "sys": format(outstanding[t], "08x")})
                 s.emit("InOther", id=unsol[0], sys=norm(outstanding[t]))
-                ep.link.feed(link.hsms_frame(stype=0, system=outstanding[t], session=0, stream=1, function=1, wbit=True,
+                # (with and without W-bit: what makes a message a reply is its function, not the absence of a reply request)
+                ep.link.feed(link.hsms_frame(stype=0, system=outstanding[t], session=0, stream=1, function=1, wbit=rng.random() < 0.5,
                                              body=body_tag(UBASE + unsol[0])))
                 rec["collisions"] = rec.get("collisions", 0) + 1
                 acted = True
